@@ -59,6 +59,8 @@ def _geoms(tier):
         # compressed clusters byte-packed back to back (several start in the same 512-byte host sector), as qemu-img -c writes
         dict(cb=12, ver=3, W=4, at="0", alpha="V3", layout="l1_first", cut=0, hl=112, only=[B.U, B.N, B.C], pack=True),
         dict(cb=16, ver=3, W=3, at="straddle", alpha="V3", layout="l2_first", cut=0, hl=112, only=[B.Z, B.C], pack=True),
+        # far into the L1 table: the window straddles L1 entries 129 / 130 (beyond the 128 cached L2 tables)
+        dict(cb=9, ver=3, W=3, at="l1-130", alpha="V3", layout="l2_reversed", cut=7, hl=112, only=[B.U, B.N, B.Z, B.C]),
         # the disk ends exactly where the coverage of the last L1 entry ends and the buffer is larger than what is left
         dict(cb=9, ver=3, W=3, at="end", alpha="V3", layout="l1_first", cut=100, hl=112, bufs=[65536], only=[B.U, B.Z, B.N]),
     ]
@@ -131,6 +133,8 @@ def _window(g):
         return l2n - 2, l2n - 2 + W + 1
     if g["at"] == "end":
         return l2n - W, l2n
+    if g["at"] == "l1-130":
+        return 130 * l2n - 2, 130 * l2n - 2 + W + 1
     return l2n, l2n + W + 1  # "absent": the first L1 entry has no L2 table
 
 
